@@ -297,7 +297,7 @@ class C22(Check):
             "/ last byte, half or whole word is overwritten between executions by a guest store (after P in the "
             "same block, immediately before P in the same block, in another block) or by the host (vm.set_mem, "
             "vm.set_u8/16/32) while stopped on a breakpoint at the loop head, on P, or right after P; fixed patch "
-            "values (10 for x86_32, 8 for arml) enumerated completely in both tiers, plus seeded random immediates "
+            "values (10 for x86_32, 8 for arml; every other one in the quick tier, all in thorough), plus seeded random immediates "
             "and stop iterations; both backends; reference = same history with the translation cache cleared "
             "before every instruction. Non-trivial: P executes before and after the write (every history, by "
             "construction); distinct by (history, backend).")
@@ -320,9 +320,15 @@ class C22(Check):
         hs = []
         for arch in ("x86_32", "arml"):
             hs += histories(arch)
-        mine = [h for i, h in enumerate(hs) if i % nshards == shard]
-        res.exhaustive["fixed-patch-histories"] = True
-        nrand = 40 if tier == "thorough" else 4
+        # histories sharing a program (architecture, patch) go to the same shard; the quick tier takes the patches
+        # of even index (first / middle / last byte and a wide patch are all still present)
+        groups = sorted(set((h["arch"], h["off"], h["width"], h["value"]) for h in hs))
+        if tier != "thorough":
+            groups = groups[::2]
+        owner = {g: i % nshards for i, g in enumerate(groups)}
+        mine = [h for h in hs if owner.get((h["arch"], h["off"], h["width"], h["value"])) == shard]
+        res.exhaustive["fixed-patch-histories"] = (tier == "thorough")
+        nrand = 40 if tier == "thorough" else 2
         for _ in range(nrand):
             arch = rng.choice(["x86_32", "arml"])
             if arch == "x86_32":
